@@ -235,6 +235,12 @@ class DOK(SparseArray, NDArrayOperatorsMixin):
         """
         ar = cls(x.shape, dtype=x.dtype)
 
+        if x.ndim == 0:
+            # np.nonzero rejects 0-d arrays
+            if x != 0:
+                ar.data[()] = x[()]
+            return ar
+
         coords = np.nonzero(x)
         data = x[coords]
 
